@@ -30,6 +30,10 @@ def suite(env):
 def main():
     adir, i, sid, prop, needs = sys.argv[1:6]
     checks = sys.argv[6:] or [prop]
+    here = os.path.dirname(os.path.dirname(os.path.abspath(__file__)))
+    if os.path.exists(os.path.join(here, "seeded", sid)):
+        print(f"REJECT: seeded/{sid} already exists (choose another id; nothing is overwritten)")
+        return 1
     patch = os.path.join(adir, f"mutant_{i}.diff")
     demo = os.path.join(adir, f"demo_{i}.rs")
     env = dict(os.environ, CARGO_TARGET_DIR="/tmp/confirm_target", CARGO_NET_OFFLINE="true")
